@@ -137,6 +137,11 @@ func (m *machine) Gen(t *rapid.T) Op {
 	if m.closed {
 		return Op{K: "tick"}
 	}
+	if m.p.MTU && m.confirmed {
+		if op, ok := m.genMTU(t); ok {
+			return op
+		}
+	}
 	op := Op{Dt: rapid.SampledFrom(dts).Draw(t, "dt"), TM: rapid.SampledFrom([]int{0, 0, 0, 0, 0, 0, 0, 0, 0, 1, 1, 2, 3}).Draw(t, "tm")}
 	kinds := []string{"send", "send", "send", "send", "recv", "recv", "recv", "recv", "recv", "tick", "tick"}
 	if m.confirmed {
@@ -251,6 +256,67 @@ func (m *machine) Gen(t *rapid.T) Op {
 	return op
 }
 
+// genMTU is the generator bias of Params.MTU: a path-MTU probe that the network drops (it is never
+// acknowledged) while the connection exchanges one packet at a time - each regular packet is acknowledged
+// before the next one is sent, so that no regular packet is outstanding when an ACK is processed - with
+// clock steps around the probe's time threshold. ok=false: draw an ordinary operation.
+func (m *machine) genMTU(t *rapid.T) (Op, bool) {
+	p := m.mtuInFlight
+	if p == nil {
+		if m.mtuSize >= 1452 || m.lastMode != ackhandler.SendAny || !pct(t, 55, "mtu-start") {
+			return Op{}, false
+		}
+		return Op{K: "send", X: 1, Q: 1, Dt: rapid.SampledFrom([]int64{0, 50, 1000, 30000}).Draw(t, "dt")}, true
+	}
+	if !pct(t, 80, "mtu-pingpong") {
+		return Op{}, false
+	}
+	sp := m.sp[spA]
+	set := map[int64]bool{}
+	for _, pn := range sp.order {
+		if q := sp.pk[pn]; q != nil && pn > p.pn && q.outstandingData() {
+			set[pn] = true
+		}
+	}
+	if len(set) == 0 {
+		if m.lastMode != ackhandler.SendAny {
+			return Op{}, false
+		}
+		// one regular ack-eliciting packet
+		pk := Pk{L: lv1, Sz: rapid.SampledFrom([]int{60, 400, 1200}).Draw(t, "size")}
+		if rapid.Bool().Draw(t, "stream") {
+			pk.S = 1
+		} else {
+			pk.C = 1
+		}
+		return Op{K: "send", Q: 1, Pk: []Pk{pk}, Dt: rapid.SampledFrom([]int64{0, 0, 50, 1000, 3000, 10000}).Draw(t, "dt")}, true
+	}
+	// the peer acknowledges what was sent after the probe (not the probe)
+	op := Op{K: "recv", L: lv1, Sz: rapid.SampledFrom([]int{40, 100, 1200}).Draw(t, "dgram"), EF: rapid.Bool().Draw(t, "evfirst")}
+	if len(set) > 1 && pct(t, 20, "only-largest") {
+		hi := int64(-1)
+		for pn := range set {
+			hi = max(hi, pn)
+		}
+		set = map[int64]bool{hi: true}
+	}
+	op.Ack = rangesOf(set)
+	op.AD = rapid.SampledFrom([]int64{0, 0, 100, 1000, 25000}).Draw(t, "ackdelay")
+	switch rapid.IntRange(0, 9).Draw(t, "mtu-clock") {
+	case 0, 1, 2: // a quick round trip (several of them reach the packet threshold before the time threshold)
+		op.Dt = rapid.SampledFrom([]int64{50, 300, 1000, 3000}).Draw(t, "dt")
+	case 3, 4: // about one RTT
+		op.Dt = rapid.SampledFrom([]int64{10000, 18000, 20000, 22000, 30000}).Draw(t, "dt")
+	case 5, 6: // just before the probe's time threshold
+		op.TM, op.Dt = 4, rapid.SampledFrom([]int64{1, 1, 50, 1000, 5000}).Draw(t, "dt")
+	case 7, 8: // at / just past it
+		op.TM, op.Dt = 5, rapid.SampledFrom([]int64{0, 0, 1, 50, 1000}).Draw(t, "dt")
+	default: // long after
+		op.Dt = rapid.SampledFrom([]int64{100000, 400000, 1100000}).Draw(t, "dt")
+	}
+	return op, true
+}
+
 // ---------------------------------------------------------------------------------------------
 // end of history
 
@@ -270,6 +336,9 @@ func (m *machine) Finish(u *vf.Unit) *vf.Verdict {
 	}
 	if m.closed {
 		u.Class("closed-by-violation")
+	}
+	if m.loneNoTimer > 0 {
+		u.KnownHit(sigLoneProbeTimer) // counted when the finding is registered as open in known_findings.json
 	}
 	if m.nLoss >= 1 && m.nGapAck >= 1 && spaces >= 2 {
 		u.NonTrivial(m.sig)
@@ -350,6 +419,9 @@ func genParams(server bool) func(t *rapid.T) Params {
 		p.Qlog = rapid.IntRange(0, 4).Draw(t, "qlog") != 0
 		p.Fast = rapid.IntRange(0, 2).Draw(t, "fast") == 0
 		p.Drain = rapid.SampledFrom([]int{0, 0, 1}).Draw(t, "drain")
+		if rapid.IntRange(0, 4).Draw(t, "mtu-scenario") == 2 {
+			p.MTU, p.Fast = true, true
+		}
 		p.MaxAckMs = rapid.SampledFrom([]int{0, 0, 5, 25, 100}).Draw(t, "mad")
 		ng := rapid.IntRange(1, 4).Draw(t, "ngaps")
 		for i := 0; i < ng; i++ {
